@@ -1,6 +1,14 @@
 """Per-property configuration of the driver (bin/check)."""
 
 PROPS = {
+    "C10": {
+        "test": "TestVerif_C10", "level": "exploration",
+        "rule": "scenario = {0..n associations (some >100)} x {0-3 sessions} x trigger per association {release, silence->read timeout(+heartbeat failure), unanswered heartbeats, live} x requests in flight x datapath reply delay x PFCPIface.Stop() at a drawn offset (+-3.5 ms around the coinciding triggers), fresh agent per scenario, plus a 'refresh' family (association ends without Stop, same address:port associates afresh, bystander association checked); distinct = distinct interleaving signatures (datapath, heartbeat on/off, delay, stop offset in ms, multiset of per-association <trigger, order relative to Stop, release answered?, sessions>)",
+        "shards": {"quick": 12, "thorough": 16}, "timeout": {"quick": 800, "thorough": 12000},
+        "owns_races": False,
+        "floors": {"quick": {"associations": 100, "sessions": 50}, "thorough": {"associations": 1000, "sessions": 500}},
+    },
+    "DEBUG1": {"test": "TestVerif_DEBUG1", "level": "exploration", "rule": "debug", "shards": {"quick": 1, "thorough": 1}, "timeout": {"quick": 120, "thorough": 120}},
     "SMOKE": {
         "test": "TestVerif_SMOKE", "level": "exploration", "rule": "harness self-test",
         "shards": {"quick": 1, "thorough": 1}, "timeout": {"quick": 120, "thorough": 120},
